@@ -402,6 +402,9 @@ def check_tree_connected(ctx):
     elt, gens, conds = b.canon()
     pairs = len(gens) == 1 and gens[0][0] == 2 and re.fullmatch(r'(itertools\.)?combinations\((.+),2\)', gens[0][1]) is not None
     ends = elt.startswith('(_g0_0,_g0_1,') or elt.startswith('(_g0_1,_g0_0,')
+    # a filter that only excludes a pair of EQUAL cliques is vacuous (the maximal cliques of a graph are pairwise distinct)
+    vacuous = {'set(_g0_0)!=set(_g0_1)', 'set(_g0_1)!=set(_g0_0)', '_g0_0!=_g0_1', '_g0_1!=_g0_0', '_g0_0isnot_g0_1', 'notset(_g0_0)==set(_g0_1)'}
+    conds = [c for c in conds if c not in vacuous]
     ctx.ob('tree-connected', fi, b.where or fi.node, bool(pairs and ends and not conds),
            'every pair of maximal cliques must get an edge (unconditionally) so that the spanning tree is connected even for '
            'attribute-disjoint components; belief_propagation shares one logZ across all cliques; the source builds %s' % b.show()[:200],
